@@ -11,7 +11,7 @@
                  Model: world independence (C14_world_independent_run) => exactly one result, pm_run's.
    "thr.repeat.check"  1 = the observed list is [pm_run case]; 2 = the state mentions a world-reading
                  instruction (outside the quantifier of C14); 0 otherwise.
-   "thr.ids"     (profile t k via) t threads x k node creations (via 0: Graph::add_node, 1: GRAPH.NODE*ADD
+   "thr.ids"     (profile t k via) t threads x k node creations (via 0: Graph::add_node, 1: GRAPH.NODE*ADD, 2: add_node interleaved with unrelated runs;
                  through PushInterpreter::step) -> (pairwise_distinct each_thread_increasing how_many)
                  Model: C14_node_ids_unique_under_interleaving => (1 1 t*k) whatever the schedule.
    "thr.cli"     (profile libm text) the `pushr` binary on the program text, its last printed block, and the
@@ -68,7 +68,10 @@ Definition pm_thr_ids (c : sx) : sx :=
   | SL [pr; SZ t; SZ k; SZ via] =>
       match un_profile pr with
       | Some _ => if (0 <=? t) && (0 <=? k) && ((via =? 0) || (via =? 1))
-                  then SL [SZ 0; SL [SZ 1; SZ 1; SZ (t * k)]] else sx_bad
+                  then SL [SZ 0; SL [SZ 1; SZ 1; SZ (t * k)]]
+                  else if (0 <=? t) && (0 <=? k) && (via =? 2)      (* every third creation is followed by an unrelated run that creates one node *)
+                  then SL [SZ 0; SL [SZ 1; SZ 1; SZ (t * (k + (k + 2) / 3))]]
+                  else sx_bad
       | None => sx_bad
       end
   | _ => sx_bad
